@@ -260,6 +260,11 @@ var kC14Block = register(&Kind[c14Block]{
 	Gen: func(t *rapid.T) c14Block {
 		b := c14Block{Nonce: rapid.Uint32().Draw(t, "nonce")}
 		scripts := []HexBytes{{}, {0x51}, {0x76, 0xa9, 0x14}, {0x6a, 0x02, 0xab, 0xcd}, {0x6a}, genBytes(t, "s1", 1, 30), genBytes(t, "s2", 1, 30)}
+		if rapid.IntRange(0, 7).Draw(t, "longscripts") == 0 { // every non-empty script is an element, whatever its length or standardness
+			for _, n := range []int{520, 521, 9999, 10000, 10001, 65535, 65536, 100000} {
+				scripts = append(scripts, HexBytes(bytes.Repeat([]byte{byte(0x50 + n%7)}, n)))
+			}
+		}
 		ntx := rapid.IntRange(1, 30).Draw(t, "ntx")
 		for i := 0; i < ntx; i++ {
 			var tx c14Tx
